@@ -119,6 +119,8 @@ class Policy:
         self.p_continue = args.get('p_continue', 0.03)
         self.use_future = args.get('future', True)
         self.p_future = args.get('p_future', 0.7)
+        self.first_start_line = args.get('first_start_line')
+        self.p_unborn = args.get('p_unborn', 0.0)
         self.no_decoys = args.get('no_decoys', False)
         self.lock = threading.RLock()
         self.put = None
@@ -198,6 +200,20 @@ class Policy:
         tt, q = self.rng.choice(cands)
         self._send_decoy(kind, tt, q)
 
+    def _unborn(self, t, p, line_no):
+        """Commands addressed to a trace that does not exist YET, with the prompt numbers it may well open later.
+        Sent only while it is certain that no second trace can have been born: trace 1 is the only trace seen, it is
+        blocked at this unanswered prompt, and its module-level code has not reached the line that starts the first
+        thread.  (trace 2.., prompt p+1..) are then non-existent prompts for certain: they must be dropped."""
+        rng = self.rng
+        if not (t == 1 and self.maxt == 1 and not self.ended and self.first_start_line is not None
+                and isinstance(line_no, int) and line_no < self.first_start_line and rng.random() < self.p_unborn):
+            return
+        width = rng.randint(4, 12)
+        for tt in ([2] if rng.random() < 0.6 else [2, 3]):
+            for q in range(p + 1, p + 1 + width):
+                self._send_decoy('unborn-trace', tt, q)
+
     def _send_decoy(self, kind, tt, q):
         self.ndecoy += 1
         k = self.ndecoy
@@ -225,6 +241,7 @@ class Policy:
         if not self.no_decoys:
             for _ in range(rng.randint(0, self.max_decoys)):
                 self._decoy(rng.choice(DECOY_KINDS_PRE), t, p)
+            self._unborn(t, p, line_no)
         self.genuine[str(p)] = [t, text]
         self._put(t, p, text)
         if not self.no_decoys:
@@ -299,7 +316,8 @@ def make_policy(args):
 def gen_program(rng, max_threads: int):
     """A script with `nthreads` worker threads; returns (src, gate_lines: line_no -> gate id)."""
     nthreads = rng.randint(0, max_threads)
-    sequential = rng.random() < 0.25
+    style = rng.choice(['concurrent', 'concurrent', 'sequential', 'oneline'])
+    first_start_line = None     # the module-level line that starts the first thread: before it no second trace can be born
     # MARK and LOG are lists the responder installs in `builtins` (so that a command executed at the very first
     # line already finds them); the script prints them at the end
     lines = ['import threading', 'from harness.props.c07 import gate']
@@ -331,10 +349,14 @@ def gen_program(rng, max_threads: int):
             gates[len(lines)] = g
     if funcs:
         lines.append('ths = [threading.Thread(target=f) for f in (' + ', '.join(funcs) + ',)]')
-        if sequential:
+        first_start_line = len(lines) + 1
+        if style == 'sequential':
             lines.append('for t in ths:')
             lines.append('    t.start()')
             lines.append('    t.join()')
+        elif style == 'oneline':
+            # trace 1 has no prompt open while a worker runs: prompt numbers are predictable
+            lines.append('for t in ths: t.start(); t.join()')
         else:
             lines.append('for t in ths: t.start()')
             for text, g in body('', rng.randint(0, 2)):
@@ -343,12 +365,13 @@ def gen_program(rng, max_threads: int):
                     gates[len(lines)] = g
             lines.append('for t in ths: t.join()')
     lines.append("print('@@', sorted(MARK), sorted(LOG))")
-    return '\n'.join(lines) + '\n', gates
+    return '\n'.join(lines) + '\n', gates, first_start_line
 
 
 def gen_job(rng, tier_threads: int, plain: bool = False):
-    src, gates = gen_program(rng, tier_threads)
+    src, gates, first_start = gen_program(rng, tier_threads)
     args = {'seed': rng.randrange(1 << 30), 'gate_lines': {str(k): v for k, v in gates.items()},
+            'first_start_line': first_start, 'p_unborn': rng.choice([0.3, 0.6, 1.0]),
             'withhold': rng.choice([0.0, 0.3, 0.6, 0.9]), 'max_decoys': rng.choice([1, 2, 3, 4]),
             'p_stmt': rng.choice([0.0, 0.15, 0.3]), 'future': True, 'no_decoys': plain}
     return {'src': src, 'form': 'str', 'trace_threads': True, 'trace_modules': False, 'timeout': 8,
